@@ -1,6 +1,6 @@
 (** C16 — property theorems only. *)
 From Coq Require Import List NArith ZArith Bool.
-From C33 Require Import C16.Proto C16.Model C16.Spec C16.Proofs.
+From C33 Require Import C16.Proto C16.Model C16.Spec C16.Proofs C16.ProofsFrom.
 From C33 Require Import C16.ProtoUnknown C16.ModelUnknown C16.ModelEth C16.SpecExt
                         C16.ProofsUnknown C16.ProofsUnknown2 C16.ProofsExt
                         C16.ProofsWire C16.ProofsWire2 C16.ProofsWire3 C16.ProofsWire4.
@@ -167,16 +167,98 @@ Proof. exact sender_bound_refuted. Qed.
 Print Assumptions C16_sender_bound_refuted.
 
 Theorem C16_sender_bound_partial :
-  forall ds verify mall issued t ty pub sg t' s' h,
+  forall adrv ds verify mall issued t ty pub sg t' s' h,
     Z.eqb (addr_id (s_ty s')) (addr_id ty) = true ->
     ideal_scheme verify mall issued ->
     only_issued issued (crypto_id ty) pub (sign_msg t) sg ->
     wf_txb t = true -> wf_txb t' = true ->
     signature t' = Some s' -> crypto_id (s_ty s') = crypto_id ty ->
-    check_sign ds verify t' h = true ->
-    sender_of t' = sender_of (sign_tx ty pub sg t).
+    check_sign_tx adrv ds verify t' h = true ->
+    sender_of t' = sender_of (sign_tx ty pub sg t) /\
+    tx_from adrv t' = tx_from adrv (sign_tx ty pub sg t).
 Proof. exact sender_bound_partial. Qed.
 Print Assumptions C16_sender_bound_partial.
+
+(** * Transaction.From() and the sender gate of Transaction.CheckSign
+      (finding 11 repaired: From() panicked for address ids without a usable
+      driver, CheckSign accepted such types) *)
+(** From() returns a string for every ty, every key, with or without a
+    signature, whatever the address drivers do ([None] = panic). *)
+Theorem C16_from_total : forall adrv t, exists a, tx_from adrv t = Some a.
+Proof. exact from_total. Qed.
+Print Assumptions C16_from_total.
+
+(** Transaction.CheckSign = a sender address is derivable, and what CheckSign
+    was before ([check_sign]: signature present, types.CheckSign). *)
+Theorem C16_checksign_is_gate_and_driver :
+  forall adrv ds verify t h,
+    check_sign_tx adrv ds verify t h = usable adrv (sig_ty t) (sig_pub t) && check_sign ds verify t h.
+Proof. exact check_sign_tx_split. Qed.
+Print Assumptions C16_checksign_is_gate_and_driver.
+
+(** An address id (or key) for which no driver derives an address is refused,
+    whatever the signature driver answers. *)
+Theorem C16_unusable_addr_id_rejected :
+  forall adrv ds verify t s h,
+    signature t = Some s ->
+    (forall a, adrv (addr_id (s_ty s)) (s_pub s) <> AAddr a) ->
+    check_sign_tx adrv ds verify t h = false.
+Proof. exact unusable_rejected. Qed.
+Print Assumptions C16_unusable_addr_id_rejected.
+
+Theorem C16_accepted_has_sender :
+  forall adrv ds verify t h,
+    check_sign_tx adrv ds verify t h = true ->
+    exists s a, signature t = Some s /\ adrv (addr_id (s_ty s)) (s_pub s) = AAddr a /\
+                tx_from adrv t = Some a /\ check_sign ds verify t h = true.
+Proof. exact accepted_has_sender. Qed.
+Print Assumptions C16_accepted_has_sender.
+
+(** The clauses of the property for the whole of Transaction.CheckSign. *)
+Theorem C16_sign_then_verify_tx :
+  forall adrv ds verify mall issued t ty pub sg h d,
+    ideal_scheme verify mall issued ->
+    load ds (crypto_id ty) h = Some d ->
+    issued (d_id d) pub (sign_msg t) sg ->
+    usable adrv ty pub = true ->
+    check_sign_tx adrv ds verify (sign_tx ty pub sg t) h = true.
+Proof. exact sign_then_verify_tx. Qed.
+Print Assumptions C16_sign_then_verify_tx.
+
+Theorem C16_altered_fails_tx_partial :
+  forall adrv ds verify mall issued t ty pub sg t' s' h,
+    ideal_scheme verify mall issued ->
+    only_issued issued (crypto_id ty) pub (sign_msg t) sg ->
+    wf_txb t = true -> wf_txb t' = true ->
+    signature t' = Some s' -> crypto_id (s_ty s') = crypto_id ty ->
+    (set_sig None t' <> set_sig None t \/ s_pub s' <> pub \/
+     mall (crypto_id ty) sg (s_sig s') = false) ->
+    check_sign_tx adrv ds verify t' h = false.
+Proof. exact altered_fails_tx_partial. Qed.
+Print Assumptions C16_altered_fails_tx_partial.
+
+Theorem C16_disabled_or_unsigned_fails_tx :
+  forall adrv ds verify t h,
+    (signature t = None \/
+     exists s, (0 <= h)%Z /\ signature t = Some s /\ enabled ds (crypto_id (s_ty s)) h = false) ->
+    check_sign_tx adrv ds verify t h = false.
+Proof. exact disabled_or_unsigned_fails_tx. Qed.
+Print Assumptions C16_disabled_or_unsigned_fails_tx.
+
+(** ty acts through the driver id and through whether its address format has a
+    driver; unknown fields reach neither. *)
+Theorem C16_ty_selects_driver_and_sender :
+  forall adrv ds verify t s ty' h,
+    signature t = Some s -> crypto_id ty' = crypto_id (s_ty s) ->
+    usable adrv ty' (s_pub s) = usable adrv (s_ty s) (s_pub s) ->
+    check_sign_tx adrv ds verify (set_ty ty' t) h = check_sign_tx adrv ds verify t h.
+Proof. exact ty_selects_driver_and_sender. Qed.
+Print Assumptions C16_ty_selects_driver_and_sender.
+
+Theorem C16_checksign_tx_ignores_unknown_fields :
+  forall adrv ds verify d h, check_sign_tx_d adrv ds verify d h = check_sign_tx adrv ds verify (d_tx d) h.
+Proof. exact checksign_tx_ignores_unknown. Qed.
+Print Assumptions C16_checksign_tx_ignores_unknown_fields.
 
 (** * Extension: the secp256k1eth driver in note mode *)
 Theorem C16_eth_same_action_same_verdict :
